@@ -5,6 +5,7 @@
 mod util;
 mod c02;
 mod c03;
+mod c10;
 mod c13;
 mod c15;
 mod c17;
@@ -37,6 +38,7 @@ fn main() {
     match args.scenario.as_str() {
         "c02" => c02::run(&args),
         "c03" => c03::run(&args),
+        "c10" => c10::run(&args),
         "c13" => c13::run(&args),
         "c15" => c15::run(&args),
         "c17" => c17::run(&args),
